@@ -534,6 +534,302 @@ theorem foldMap_eq_mkMap (kvs : List (Val × Val)) : ∀ m : VMap,
 theorem foldMap_nil_eq_mkMap (kvs : List (Val × Val)) : foldMap (interleaveKV kvs) [] = mkMap kvs := by
   rw [foldMap_eq_mkMap]; rfl
 
+/-! ### ACCESS -/
+
+/-- `code` runs from its start to its end and leaves the one stack entry `e` (a value or a bound method). -/
+def RunsE (B : Builtins) (rec top : Rec) (env : Env) (code : List Instr) (e : SVal) : Prop :=
+  ∃ k, k ≤ code.length ∧ Go B rec top env code k 0 [] code.length [e]
+
+theorem runsE_of_runs {c : List Instr} {v : Val} (h : Runs B rec top env c v) :
+    ∃ w, resolve env w = v ∧ RunsE B rec top env c (.val w) := by
+  obtain ⟨w, k, hw, hk, g⟩ := h
+  exact ⟨w, hw, k, hk, g⟩
+
+theorem runs_of_runsE {c : List Instr} {w : Val} (h : RunsE B rec top env c (.val w)) :
+    Runs B rec top env c (resolve env w) := by
+  obtain ⟨k, hk, g⟩ := h
+  exact ⟨w, k, rfl, hk, g⟩
+
+/-- The stack entry `ACCESS name` leaves for the object value `obj`: the entry of a map; else the bound
+    function or macro of that name; else a failure value. -/
+def accessEntry (B : Builtins) (env : Env) (obj : Val) (name : Str) : SVal :=
+  match fieldEntry obj name with
+  | some v => .val v
+  | none =>
+    match env.callable B name with
+    | some c => .bound c obj
+    | none => if obj.isErr then .val obj else .val (.err .attribute)
+
+theorem go_access (hnp : NoProgs env) (hb : env.hasBinds = true) (w : Val) (name : Str) (r : List Instr) :
+    Go B rec top env (.access :: r) 1 0 [.val (.ident name), .val w] 1 [accessEntry B env (resolve env w) name] :=
+  Go.instr (fun pre post st log => by
+    simp only [step, popRaw, List.cons_append, List.nil_append, popV_resolve hnp, accessEntry, fieldEntry, hb]
+    cases resolve env w with
+    | map m =>
+      simp only []
+      cases Map.get m name with
+      | some v => simp [pushV]
+      | none => cases env.callable B name <;> simp [pushV, Val.isErr]
+    | _ => simp only [Bool.not_true, Bool.false_eq_true, if_false]; cases env.callable B name <;> simp [pushV, Val.isErr])
+
+/-- `c; PUSH name; ACCESS`. -/
+theorem runsE_access (hnp : NoProgs env) (hb : env.hasBinds = true) {c : List Instr} {o : Val}
+    (hc : Runs B rec top env c o) (name : Str) :
+    RunsE B rec top env (c ++ [.push (.ident name), .access]) (accessEntry B env o name) := by
+  obtain ⟨w, k, rfl, hk, g⟩ := hc
+  refine ⟨k + 1 + 1, by simp; omega, ?_⟩
+  have g1 := g.head_app [.push (.ident name), .access]
+  have g2 := ((go_push (B := B) (rec := rec) (top := top) (env := env) (.ident name) [.access]).skip_app c).frame [.val w]
+  have g3 := ((go_access (B := B) (rec := rec) (top := top) hnp hb w name []).skip_cons (.push (.ident name))).skip_app c
+  exact ((g1.trans (g2.cast rfl (by omega) rfl)).trans (g3.cast rfl (by omega) rfl)).cast rfl rfl (by simp)
+
+/-- `o.name` for a name that is neither a function nor a macro: the field, by `fieldOf`. -/
+theorem accessEntry_field {o : Val} {name : Str} (hc : env.callable B name = none) :
+    accessEntry B env o name = .val (fieldOf o name) := by
+  unfold accessEntry fieldOf
+  cases o <;> simp [fieldEntry, hc, Val.isErr]
+  rename_i m
+  cases Map.get m name <;> rfl
+
+theorem runs_access_field (henv : EnvOK env) {c : List Instr} {o : Val} (ho : Data o)
+    (hc : Runs B rec top env c o) {name : Str} (hn : callableName B name = false) :
+    Runs B rec top env (c ++ [.push (.ident name), .access]) (fieldOf o name) := by
+  have h := runsE_access henv.noProgs henv.binds hc name
+  rw [accessEntry_field (callable_none henv hn)] at h
+  have := runs_of_runsE h
+  rwa [resolve_plain (data_fieldOf ho name).plain] at this
+
+/-! ### CALL -/
+
+theorem go_pushes (vs : List Val) (r : List Instr) :
+    Go B rec top env (vs.map .push ++ r) vs.length 0 [] vs.length (vs.reverse.map .val) := by
+  induction vs generalizing r with
+  | nil => exact Go.refl _ 0 []
+  | cons v vs ih =>
+    have g1 := go_push (B := B) (rec := rec) (top := top) (env := env) v (vs.map .push ++ r)
+    have g2 := ((ih r).skip_cons (.push v)).frame [.val v]
+    have hst : (v :: vs).reverse.map SVal.val = vs.reverse.map SVal.val ++ [.val v] := by simp
+    rw [hst]
+    exact (g1.trans (g2.cast rfl (by omega) rfl)).cast (by simp; omega) rfl (by simp)
+
+/-- What `CALL n` does with the callee entry on top of the `n` argument entries `argv` (first argument on
+    top): it replaces them by the value `r`, leaving the log as it is. -/
+def CallStep (B : Builtins) (rec top : Rec) (env : Env) (callee : SVal) (argv : List Val) (r : Val) : Prop :=
+  ∀ (len pc : Nat) (st : List SVal) (log : Log),
+    step B rec top env len (.call argv.length) pc { stack := callee :: (argv.map .val ++ st), log := log } =
+      .ok pc { stack := .val r :: st, log := log }
+
+/-- `PUSH aₙ; …; PUSH a₁; callee code; CALL n`. -/
+theorem runs_call {cc : List Instr} {callee : SVal} (hc : RunsE B rec top env cc callee) (argv : List Val)
+    {r : Val} (hr : Plain r) (hstep : CallStep B rec top env callee argv r) :
+    Runs B rec top env (argv.reverse.map .push ++ cc ++ [.call argv.length]) r := by
+  obtain ⟨kc, hkc, gc⟩ := hc
+  refine ⟨r, argv.length + kc + 1, resolve_plain hr, by simp; omega, ?_⟩
+  have g1 := go_pushes (B := B) (rec := rec) (top := top) (env := env) argv.reverse (cc ++ [.call argv.length])
+  simp only [List.reverse_reverse, List.length_reverse] at g1
+  have g2 := (((gc.head_app [.call argv.length]).skip_app (argv.reverse.map .push)).frame (argv.map .val))
+  have g3 : Go B rec top env (.call argv.length :: []) 1 0 (callee :: argv.map .val) 1 [.val r] :=
+    Go.instr (fun pre post st log => by
+      have := hstep (pre ++ [Instr.call argv.length] ++ post).length (pre.length + 0 + 1) st log
+      simpa using this)
+  have g3' := (g3.skip_app cc).skip_app (argv.reverse.map .push)
+  rw [List.append_assoc]
+  exact ((g1.trans (g2.cast rfl (by simp) rfl)).trans (g3'.cast rfl (by simp) rfl)).cast
+    (by omega) rfl (by simp)
+
+/-- `resolve_args` on `argv` yields `vals`, or the first failing one. -/
+def ArgsEval (rec : Rec) (env : Env) (argv vals : List Val) : Prop :=
+  ∀ log, resolveArgs rec env argv log =
+    match firstErr vals with
+    | some k => .error (.err k, log)
+    | none => .ok (vals, log)
+
+/-- Argument blocks, each of which runs (one level down) to its value. -/
+theorem argsEval_blocks (bvs : List (List Instr × Val))
+    (h : ∀ p ∈ bvs, ∀ log, rec env p.1 true log = outOf p.2 log) :
+    ArgsEval rec env (bvs.map (fun p => .code p.1)) (bvs.map (·.2)) := by
+  induction bvs with
+  | nil => intro log; rfl
+  | cons p ps ih =>
+    obtain ⟨c, v⟩ := p
+    intro log
+    have h1 := h (c, v) (List.mem_cons_self ..) log
+    have ih' := ih (fun q hq => h q (List.mem_cons_of_mem _ hq)) log
+    simp only [List.map_cons, resolveArgs, h1]
+    cases v <;> simp only [outOf, firstErr, ih'] <;> (try (cases firstErr (ps.map (·.2)) <;> rfl))
+
+/-- A single argument that is a value already (not a block) is passed as it is, failing or not. -/
+theorem resolveArgs_single {v : Val} (hv : Data v) (log : Log) :
+    resolveArgs rec env [v] log = .ok ([v], log) := by
+  cases v <;> simp_all [resolveArgs, Data, isData]
+
+theorem popN_plain (hnp : NoProgs env) (argv : List Val) (hp : ∀ a ∈ argv, Plain a) (st : List SVal) (log : Log) :
+    popN rec env argv.length { stack := argv.map .val ++ st, log := log } = .ok argv { stack := st, log := log } := by
+  rw [popN_resolve hnp]
+  congr 1
+  rw [List.map_congr_left (fun a ha => resolve_plain (hp a ha)), List.map_id']
+
+theorem plain_code (c : List Instr) : Plain (.code c) := fun _ h => by cases h
+
+/-- Built-in function bound to its receiver. -/
+theorem callStep_builtin (hnp : NoProgs env) {name : Str} {f : Val → List Val → Val} (hf : B.func name = some f)
+    (this : Val) {argv vals : List Val} (hp : ∀ a ∈ argv, Plain a) (hev : ArgsEval rec env argv vals) :
+    CallStep B rec top env (.bound (.builtin name) this) argv (applyArgs (f this) vals) := by
+  intro len pc st log
+  simp only [step, popRaw, popN_plain hnp argv hp, invoke, hev log, hf, applyArgs]
+  cases firstErr vals <;> simp [liftNext, pushV, Abort.kind]
+
+/-- Type constructor (the callee is a type value). -/
+theorem callStep_type (hnp : NoProgs env) (tn : Str) {argv vals : List Val} (hp : ∀ a ∈ argv, Plain a)
+    (hev : ArgsEval rec env argv vals) :
+    CallStep B rec top env (.val (.type tn)) argv (applyArgs (B.ctor tn) vals) := by
+  intro len pc st log
+  simp only [step, popRaw, popN_plain hnp argv hp, hev log, applyArgs]
+  cases firstErr vals <;> simp [pushV, Abort.kind]
+
+/-- Any other data value as callee: a Runtime failure. -/
+theorem callStep_other (hnp : NoProgs env) {v : Val} (hv : Data v) (hnt : ∀ tn, v ≠ .type tn)
+    {argv : List Val} (hp : ∀ a ∈ argv, Plain a) :
+    CallStep B rec top env (.val v) argv (.err .runtime) := by
+  intro len pc st log
+  simp only [step, popRaw, popN_plain hnp argv hp]
+  cases v <;> simp_all [pushV, Data, isData]
+
+/-- A macro bound to its receiver; all arguments are blocks. -/
+theorem callStep_macro (hnp : NoProgs env) (name : Str) (this : Val) (blocks : List (List Instr)) {r : Val}
+    (hmac : ∀ log, callMacro rec top env name this blocks log = (r, log)) :
+    CallStep B rec top env (.bound (.macro_ name) this) (blocks.map .code) r := by
+  intro len pc st log
+  have hca : ∀ bl : List (List Instr), codeArgs (bl.map Val.code) = some bl := by
+    intro bl
+    induction bl with
+    | nil => rfl
+    | cons b bs ih => simp [codeArgs, ih]
+  have hca := hca blocks
+  simp only [step, popRaw, popN_plain hnp (blocks.map .code) (by
+    intro a ha; obtain ⟨c, _, rfl⟩ := List.mem_map.mp ha; exact plain_code c), invoke, hca, hmac log]
+  simp [liftNext, pushV]
+
+theorem data_fieldEntry {o : Val} (ho : Data o) {name : Str} {v : Val} (h : fieldEntry o name = some v) : Data v := by
+  unfold fieldEntry at h
+  split at h
+  · exact data_mapGet (data_map.mp ho) h
+  · cases h
+
+/-- What the spec asks of the result `r` of a call whose callee denotes `k`: a macro gives what `callMacro`
+    gives on the argument blocks; everything else is `callStrict`. -/
+def CallResult (B : Builtins) (rec top : Rec) (env : Env) (k : CallKind) (name : Str) (argv vals : List Val)
+    (r : Val) : Prop :=
+  match k with
+  | .macro_ this => ∃ blocks, argv = blocks.map .code ∧ ∀ log, callMacro rec top env name this blocks log = (r, log)
+  | k => r = callStrict B k vals
+
+/-- `f(..)`: the callee is the unresolved name. -/
+theorem callStep_ident (henv : EnvOK env) (fname : Str) {argv vals : List Val} (hp : ∀ a ∈ argv, Plain a)
+    (hev : ArgsEval rec env argv vals) {r : Val}
+    (hr : CallResult B rec top env (fnKind B env fname) fname argv vals r) :
+    CallStep B rec top env (.val (.ident fname)) argv r := by
+  unfold CallResult fnKind at hr
+  cases hf : B.func fname with
+  | some f =>
+    simp only [hf, callStrict] at hr
+    subst hr
+    intro len pc st log
+    simp only [step, popRaw, popN_plain henv.noProgs argv hp, getFunc_eq henv, hf, Option.isSome_some, if_true,
+      invoke, hev log, applyArgs]
+    cases firstErr vals <;> simp [liftNext, pushV, Abort.kind]
+  | none =>
+    simp only [hf] at hr
+    cases hm : env.isMacro fname with
+    | true =>
+      simp only [hm, if_true] at hr
+      obtain ⟨blocks, rfl, hmac⟩ := hr
+      intro len pc st log
+      have := callStep_macro (B := B) henv.noProgs fname .null blocks hmac len pc st log
+      simp only [step, popRaw, getFunc_eq henv, hf, Option.isSome_none, hm] at this ⊢
+      exact this
+    | false =>
+      simp only [hm] at hr
+      intro len pc st log
+      simp only [step, popRaw, popN_plain henv.noProgs argv hp, getFunc_eq henv, hf, Option.isSome_none, hm]
+      cases ht : env.getType fname with
+      | none => simp only [ht, callStrict] at hr; subst hr; simp [pushV]
+      | some t =>
+        cases t <;> simp only [ht, callStrict] at hr <;> subst hr <;> (try simp [pushV])
+        simp only [hev log, applyArgs]
+        cases firstErr vals <;> simp [pushV, Abort.kind]
+
+/-- `o.name(..)`: the callee is what `ACCESS name` left. -/
+theorem callStep_access (henv : EnvOK env) {o : Val} (ho : Data o) (name : Str) {argv vals : List Val}
+    (hp : ∀ a ∈ argv, Plain a) (hev : ArgsEval rec env argv vals) {r : Val}
+    (hr : CallResult B rec top env (methodKind B env o name) name argv vals r) :
+    CallStep B rec top env (accessEntry B env o name) argv r := by
+  unfold CallResult methodKind at hr
+  unfold accessEntry
+  cases hfe : fieldEntry o name with
+  | some v =>
+    have hv := data_fieldEntry ho hfe
+    simp only [hfe] at hr ⊢
+    by_cases ht : ∃ tn, v = .type tn
+    · obtain ⟨tn, rfl⟩ := ht
+      simp only [callStrict] at hr; subst hr
+      exact callStep_type henv.noProgs tn hp hev
+    · have hr' : r = .err .runtime := by
+        cases v <;> first | exact hr | exact absurd ⟨_, rfl⟩ ht
+      subst hr'
+      exact callStep_other henv.noProgs hv (fun tn h => ht ⟨tn, h⟩) hp
+  | none =>
+    simp only [hfe] at hr ⊢
+    simp only [Env.callable, getFunc_eq henv]
+    cases hf : B.func name with
+    | some f =>
+      simp only [hf, callStrict] at hr; subst hr
+      simp only [Option.isSome_some, if_true]
+      exact callStep_builtin henv.noProgs hf o hp hev
+    | none =>
+      simp only [hf, Option.isSome_none] at hr ⊢
+      cases hm : env.isMacro name with
+      | true =>
+        simp only [hm, if_true] at hr ⊢
+        obtain ⟨blocks, rfl, hmac⟩ := hr
+        exact callStep_macro henv.noProgs name o blocks hmac
+      | false =>
+        have hr' : r = .err .runtime := by simpa [hm, callStrict] using hr
+        subst hr'
+        simp only [Bool.false_eq_true, if_false]
+        by_cases he : o.isErr = true
+        · simp only [he, if_true]
+          exact callStep_other henv.noProgs ho (by intro tn h; subst h; simp [Val.isErr] at he) hp
+        · simp only [he, if_false]
+          exact callStep_other henv.noProgs (data_err _) (by intro tn h; cases h) hp
+
+/-! ### FMT -/
+
+theorem go_fmt (hnp : NoProgs env) (ws : List Val) (r : List Instr) :
+    Go B rec top env (.fmt ws.length :: r) 1 0 (ws.map .val) 1
+      [.val (fmtVal (ws.map (resolve env)).reverse)] :=
+  Go.instr (fun pre post st log => by
+    simp only [step, popN_resolve hnp, fmtVal]
+    cases concatStrs (ws.map (resolve env)).reverse <;> simp [pushV])
+
+/-- `seg₁; …; segₙ; FMT n`. -/
+theorem runs_fmt (hnp : NoProgs env) (cvs : List (List Instr × Val))
+    (hcv : ∀ p ∈ cvs, Runs B rec top env p.1 p.2) :
+    Runs B rec top env ((cvs.map (·.1)).flatten ++ [.fmt cvs.length]) (fmtVal (cvs.map (·.2))) := by
+  obtain ⟨ws, k, hws, hk, g⟩ := go_seq cvs hcv
+  have hlen : ws.reverse.length = cvs.length := by
+    have := congrArg List.length hws
+    simpa using this
+  refine ⟨fmtVal (cvs.map (·.2)), k + 1, resolve_plain (data_fmtVal _).plain,
+    by simp only [List.length_append, List.length_cons, List.length_nil]; omega, ?_⟩
+  have g1 := g.head_app [.fmt cvs.length]
+  have g2 := (go_fmt (B := B) (rec := rec) (top := top) hnp ws.reverse []).skip_app (cvs.map (·.1)).flatten
+  rw [hlen] at g2
+  have hv : (ws.reverse.map (resolve env)).reverse = cvs.map (·.2) := by
+    rw [List.map_reverse, List.reverse_reverse, hws]
+  rw [hv] at g2
+  exact (g1.trans (g2.cast rfl (by omega) rfl)).cast rfl rfl (by simp)
+
 end
 
 end Seq
